@@ -317,7 +317,61 @@ def enum_fetch(seed):
                                 break
                     if bad and len(fails) < 3:
                         fails.append({"model": model, "detail": f"{model}: {bad}"})
-    return {"name": "C36.fetcher.fetch.bounded_enumeration", "bound": "attempts 1-3, 1 or 3 URIs, 3 initial states, all outcome sequences (4 states x 2 exit codes) for the first two spawns; "
+    # URI sources as ebuilds give them: a uri_list of mirror tiers (several hosts each, tiers of different sizes), plain URIs in between.  With as many
+    # attempts as there are URIs every one of them is tried once, so whichever host serves the file, fetch() returns it
+    import tempfile
+    from unittest import mock
+    from pkgcore.fetch import custom, errors, fetchable, mirror, uri_list
+    from snakeoil import data_source
+    from snakeoil.chksum import get_handlers
+    good = b"complete file content for checksum"
+    chk = {c: get_handlers()[c](data_source.data_source(good)) for c in ("size", "sha256")}
+    for shape in ((1, 2), (2, 1), (3, 1), (1, 3, 2), (2, 2), (1,), ("plain", 2, 1), (2, "plain", 1, 3)):
+        def build():
+            u, hosts = uri_list("f.tar"), []
+            for ti, n in enumerate(shape):
+                if n == "plain":
+                    u.add_uri(f"http://plain{ti}/f.tar")
+                    hosts.append(f"http://plain{ti}/f.tar")
+                else:
+                    hs = [f"http://t{ti}h{k}" for k in range(n)]
+                    u.add_mirror(mirror(hs, f"tier{ti}"), "sub/f.tar")
+                    hosts += [h + "/sub/f.tar" for h in hs]
+            u.finalize()
+            return u, hosts
+        _u, hosts = build()
+        for serving in hosts + [None]:
+            cases += 1
+            with tempfile.TemporaryDirectory(dir="/var/tmp") as d:
+                path = os.path.join(d, "f.tar")
+                tried = []
+
+                def fake_spawn(cmd, **kw):
+                    uri = cmd.split()[1]
+                    tried.append(uri)
+                    if uri == serving:
+                        with open(path, "wb") as fh:
+                            fh.write(good)
+                        return 0
+                    return 1
+                f = custom.fetcher(distdir=d, command="fetch ${URI} ${FILE}", resume_command="resume ${URI} ${FILE}", userpriv=False, attempts=len(hosts))
+                u, _h = build()
+                with mock.patch("pkgcore.fetch.custom.spawn_bash", side_effect=fake_spawn):
+                    try:
+                        r = f(fetchable("f.tar", uri=u, chksums=chk))
+                        res = "returned" if r is not None else "no path (None)"
+                    except errors.FetchError as e:
+                        res = type(e).__name__
+                    except Exception as e:
+                        res = f"{type(e).__name__}: {e}"
+                bad = None
+                if serving is not None and res != "returned":
+                    bad = f"answered {res} although {serving} serves the file and the attempts ({len(hosts)}) cover every URI; tried {tried}"
+                elif serving is None and (res == "returned" or sorted(tried) != sorted(hosts)):
+                    bad = f"no host serves the file, {len(hosts)} attempts: answered {res} after trying {tried}; the URIs are {hosts}"
+                if bad and len(fails) < 3:
+                    fails.append({"model": {"uri_list": [str(x) for x in shape], "serving": serving, "attempts": len(hosts)}, "detail": f"uri_list of tiers {shape} (hosts per mirror tier / plain URIs): {bad}"})
+    return {"name": "C36.fetcher.fetch.bounded_enumeration", "bound": "8 uri_list shapes (1..3 mirror tiers of 1..3 hosts, plain URIs in between) x every serving host; attempts 1-3, 1 or 3 URIs, 3 initial states, all outcome sequences (4 states x 2 exit codes) for the first two spawns; "
             "again with 0-byte files, with a distfile of recorded size 0 and without checksums, checking the command each spawn used", "cases": cases, "failures": fails}
 
 
